@@ -646,6 +646,14 @@ static int fix_names (
 			}
 		}
 
+		/* words that have a meaning of their own in the BOUNDS section cannot be
+		 * read back as column names */
+		if (!ILLutil_strcasecmp (buf, "free") || !ILLutil_strcasecmp (buf, "inf") ||
+				!ILLutil_strcasecmp (buf, "infinity"))
+		{
+			sprintf (buf, "%d", i);
+		}
+
 		if (!EGLPNUM_TYPENAME_ILLis_lp_name_char (buf[0], 0))
 		{
 			if (symtab == NULL)
